@@ -399,12 +399,12 @@ impl BusListener {
             match Pin::new(&mut self.events).poll_next(cx) {
                 Poll::Ready(Some(BusListenerEvent::Started(scope))) => {
                     self.scope = Some(scope);
-                    self.pending_started -= 1;
+                    self.pending_started = self.pending_started.saturating_sub(1);
                 }
 
                 Poll::Ready(Some(BusListenerEvent::Stopped)) => {
                     self.scope = None;
-                    self.pending_stopped -= 1;
+                    self.pending_stopped = self.pending_stopped.saturating_sub(1);
                 }
 
                 Poll::Ready(Some(BusListenerEvent::Event(event))) => {
@@ -412,7 +412,7 @@ impl BusListener {
                 }
 
                 Poll::Ready(Some(BusListenerEvent::CurrentFinished)) => {
-                    self.pending_current_finished -= 1;
+                    self.pending_current_finished = self.pending_current_finished.saturating_sub(1);
                 }
 
                 Poll::Ready(None) => break Poll::Ready(None),
